@@ -91,11 +91,215 @@ fn c03_assoc(v: &[Val]) -> Result<bool, String> {
     Ok(true)
 }
 
+
+// ------------------------------------------------------------------------------------------------ C04
+/// (Δblade mod 4, folded to {-1,0,1,2})·π/2 + Δrem — the residue of a total difference modulo 2π
+fn residue(dblade: i128, drem: f64) -> f64 {
+    let m = dblade.rem_euclid(4);
+    let m = if m == 3 { -1 } else { m };
+    (m as f64) * QP + drem
+}
+fn c04_sub(v: &[Val]) -> Result<bool, String> {
+    let (a, b) = aa(v);
+    let d = a - b;
+    canon(&d)?;
+    let big_d = a.blade() as i128 - b.blade() as i128;
+    let dr = a.rem() - b.rem();
+    let nonneg = big_d > 0 || (big_d == 0 && dr >= 0.0);
+    let tol = TOL + 1e-14;
+    if nonneg || (big_d == 0 && dr.abs() < 1e-15) {
+        // no spurious turns: total(d) = total(a) - total(b)
+        if !(big_d == 0 && dr < 0.0) {
+            let ex = (d.blade() as i128 - big_d) as f64 * QP + (d.rem() - dr);
+            if ex.abs() > tol { return Err(format!("T(a-b) off by {:e} for T(b) <= T(a): got {}", ex, show_a(&d))); }
+        }
+    } else {
+        let ex = residue(d.blade() as i128 - big_d, d.rem() - dr);
+        if ex.abs() > tol { return Err(format!("a-b {} not congruent to T(a)-T(b) mod 2π (off {:e})", show_a(&d), ex)); }
+        if d.blade() > 4 || (d.blade() == 4 && d.rem() != 0.0) {
+            return Err(format!("a-b {} is more than one full forward turn for T(b) > T(a)", show_a(&d)));
+        }
+    }
+    let all = [a - &b, &a - b, &a - &b, a / b, a / &b, &a / b, &a / &b];
+    for (i, x) in all.iter().enumerate() {
+        if !same_angle(&d, x) { return Err(format!("spelling #{} gives {} instead of {}", i, show_a(x), show_a(&d))); }
+    }
+    Ok(big_d != 0 || dr != 0.0)
+}
+fn c04_roundtrip(v: &[Val]) -> Result<bool, String> {
+    let (a, b) = aa(v);
+    let r = (a + b) - b;
+    let ex = (r.blade() as i128 - a.blade() as i128) as f64 * QP + (r.rem() - a.rem());
+    if ex.abs() > 2.0 * TOL + 1e-14 { return Err(format!("(a+b)-b = {} differs from a = {} by {:e}", show_a(&r), show_a(&a), ex)); }
+    let z = a - a;
+    if z.blade() != 0 || z.rem() != 0.0 { return Err(format!("a-a = {}", show_a(&z))); }
+    Ok(true)
+}
+fn g_divf(r: &mut Rng) -> Vec<Val> { gen_args("angle.divf.v", "AF", r) }
+fn c04_divf(v: &[Val]) -> Result<bool, String> {
+    let a = v[0].a().unwrap(); let k = v[1].f().unwrap();
+    let q = a / k;
+    canon(&q)?;
+    let q2 = &a / k;
+    if !same_angle(&q, &q2) { return Err("Angle / f64 and &Angle / f64 differ".into()); }
+    // totals in double-double-ish: blade*QP split exactly enough for blades <= 2^21
+    let t = a.blade() as f64 * QP + a.rem();
+    let e = t / k;
+    let r = q.blade() as f64 * QP + q.rem();
+    let scale = t.abs().max(e.abs()).max(1.0);
+    let tol = TOL + 32.0 * scale * f64::EPSILON;
+    if (r - e).abs() > tol { return Err(format!("T(a/k)={:e} but T(a)/k={:e} (diff {:e}, tol {:e})", r, e, r - e, tol)); }
+    Ok(a.blade() != 0 || a.rem() != 0.0)
+}
+
+// ------------------------------------------------------------------------------------------------ C07
+fn step_check(what: &str, g: &Geonum, r: &Geonum, delta: usize) -> Result<(), String> {
+    if r.angle.blade() != g.angle.blade() + delta { return Err(format!("{} changed blade {} -> {} (expected +{})", what, g.angle.blade(), r.angle.blade(), delta)); }
+    if r.angle.rem().to_bits() != g.angle.rem().to_bits() { return Err(format!("{} changed the remainder {:e} -> {:e}", what, g.angle.rem(), r.angle.rem())); }
+    if r.mag.to_bits() != g.mag.to_bits() { return Err(format!("{} changed the magnitude", what)); }
+    Ok(())
+}
+fn c07_steps(v: &[Val]) -> Result<bool, String> {
+    let g = v[0].g().unwrap();
+    step_check("dual", &g, &g.dual(), 2)?;
+    step_check("undual", &g, &g.undual(), 2)?;
+    step_check("negate", &g, &g.negate(), 2)?;
+    step_check("differentiate", &g, &g.differentiate(), 1)?;
+    step_check("increment_blade", &g, &g.increment_blade(), 1)?;
+    step_check("integrate", &g, &g.integrate(), 3)?;
+    step_check("decrement_blade", &g, &g.decrement_blade(), 3)?;
+    let a = g.angle;
+    for (what, r) in [("Angle::dual", a.dual()), ("Angle::undual", a.undual()), ("Angle::negate", a.negate()), ("Angle::conjugate", a.conjugate())] {
+        step_check(what, &g, &Geonum::new_with_angle(g.mag, r), 2)?;
+    }
+    let b = g.base_angle();
+    if b.angle.blade() != a.blade() % 4 || b.angle.rem().to_bits() != a.rem().to_bits() || b.mag.to_bits() != g.mag.to_bits() {
+        return Err(format!("base_angle gave {}", show_g(&b)));
+    }
+    if a.base_angle().blade() != a.blade() % 4 || a.base_angle().rem().to_bits() != a.rem().to_bits() { return Err("Angle::base_angle wrong".into()); }
+    if a.grade() != a.blade() % 4 { return Err(format!("grade {} for blade {}", a.grade(), a.blade())); }
+    let preds = [a.is_scalar(), a.is_vector(), a.is_bivector(), a.is_trivector()];
+    for (i, p) in preds.iter().enumerate() { if *p != (a.blade() % 4 == i) { return Err(format!("grade predicate {} wrong for blade {}", i, a.blade())); } }
+    let ga = a.grade_angle();
+    let expect = (a.blade() % 4) as f64 * QP + a.rem();
+    if !(ga >= 0.0 && ga < 2.0 * PI) || (ga - expect).abs() > 4e-15 { return Err(format!("grade_angle {:e} for {}", ga, show_a(&a))); }
+    // four derivatives / two duals / derivative-then-integral
+    let d4 = g.differentiate().differentiate().differentiate().differentiate();
+    step_check("4x differentiate", &g, &d4, 4)?;
+    step_check("2x dual", &g, &g.dual().dual(), 4)?;
+    step_check("differentiate+integrate", &g, &g.differentiate().integrate(), 4)?;
+    Ok(true)
+}
+fn c07_copy(v: &[Val]) -> Result<bool, String> {
+    let (g, o) = gg(v);
+    let r = g.copy_blade(&o);
+    if r.mag.to_bits() != g.mag.to_bits() || r.angle.rem().to_bits() != g.angle.rem().to_bits() { return Err("copy_blade touched magnitude or remainder".into()); }
+    if r.angle.grade() != o.angle.grade() { return Err(format!("copy_blade grade {} but other's grade {}", r.angle.grade(), o.angle.grade())); }
+    if o.angle.blade() >= g.angle.blade() && r.angle.blade() != o.angle.blade() { return Err(format!("copy_blade blade {} but other's blade {} (not smaller)", r.angle.blade(), o.angle.blade())); }
+    if r.angle.blade() < g.angle.blade() { return Err("copy_blade decreased the blade count".into()); }
+    Ok(g.angle.blade() != o.angle.blade())
+}
+fn c07_opposite(v: &[Val]) -> Result<bool, String> {
+    let (a, b) = aa(v);
+    let d = (a.blade() as i128 - b.blade() as i128).abs();
+    let got = a.is_opposite(&b);
+    let dr = (a.rem() - b.rem()).abs();
+    if d == 2 && a.rem().to_bits() == b.rem().to_bits() && !got { return Err("blade counts differ by two with equal remainders but is_opposite is false".into()); }
+    if d != 2 && got { return Err(format!("is_opposite true with blade difference {}", d)); }
+    if dr > 2e-15 && got { return Err(format!("is_opposite true with remainders {:e} apart", dr)); }
+    if got != b.is_opposite(&a) { return Err("is_opposite not symmetric".into()); }
+    Ok(d == 2)
+}
+fn g_opp(r: &mut Rng) -> Vec<Val> {
+    let (a, b) = gen_angle_pair(r);
+    if r.chance(1, 2) {
+        let d = *r.pick(&[2usize, 2, 2, 6, 10, (1 << 32) + 2, (1 << 32) - 2, (1usize << 31) + 2, 1 << 32, 1 << 31, (1usize << 33) + 2, 4294967298, 0, 1, 3]);
+        let b2 = mk_angle(a.blade() + d, if r.chance(3, 4) { a.rem() } else { b.rem() });
+        if r.chance(1, 2) { vec![Val::A(a), Val::A(b2)] } else { vec![Val::A(b2), Val::A(a)] }
+    } else { vec![Val::A(a), Val::A(b)] }
+}
+/// history: start state + list; each list member encodes one step: magnitude = op code, angle = operand
+fn g_hist(r: &mut Rng) -> Vec<Val> {
+    let mut g = gen_geonum(r);
+    if g.mag == 0.0 { g = Geonum::new_with_angle(1.0, g.angle); }
+    let n = match r.below(4) { 0 => r.range(1, 6), 1 | 2 => r.range(6, 40), _ => r.range(40, 300) } as usize;
+    let l: Vec<Geonum> = (0..n).map(|_| {
+        let code = if r.chance(2, 3) { r.below(7) } else { 7 + r.below(4) } as f64;
+        let ang = if r.chance(1, 3) { gen_angle_pair(r).1 } else { mk_angle(r.below(64) as usize, gen_rem(r)) };
+        Geonum::new_with_angle(code, ang)
+    }).collect();
+    vec![Val::G(g), Val::L(l)]
+}
+fn c07_history(v: &[Val]) -> Result<bool, String> {
+    let g0 = v[0].g().unwrap(); let l = v[1].l().unwrap();
+    let mut g = g0;
+    let mut lo: i128 = g.angle.blade() as i128; // predicted blade count (lower bound when carries are possible)
+    let mut hi: i128 = lo;
+    let mut exact = true;
+    for (i, st) in l.iter().enumerate() {
+        let x = st.angle;
+        let before = g;
+        let code = st.mag as i64;
+        g = match code {
+            0 => g.dual(), 1 => g.undual(), 2 => g.negate(), 3 => g.differentiate(), 4 => g.integrate(),
+            5 => g.increment_blade(), 6 => g.decrement_blade(),
+            7 => g.rotate(x),
+            8 => Geonum::new_with_angle(g.mag, g.angle - x),
+            9 => g * Geonum::new_with_angle(1.0, x),
+            _ => g / Geonum::new_with_angle(1.0, x),
+        };
+        canon(&g.angle).map_err(|e| format!("step {}: {}", i, e))?;
+        let d: i128 = match code { 0 | 1 | 2 => 2, 3 | 5 => 1, 4 | 6 => 3, _ => -1 };
+        let nb = g.angle.blade() as i128; let ob = before.angle.blade() as i128;
+        if d >= 0 {
+            if nb != ob + d { return Err(format!("step {} (op {}) blade {} -> {}, rule says +{}", i, code, ob, nb, d)); }
+            if g.angle.rem().to_bits() != before.angle.rem().to_bits() { return Err(format!("step {} (op {}) changed the remainder", i, code)); }
+            lo += d; hi += d;
+        } else if code == 7 || code == 9 {
+            // addition rule: blades add, one carry iff the remainders reach a quarter turn
+            let rs = before.angle.rem() + x.rem();
+            let carry = nb - ob - x.blade() as i128;
+            let want = if rs < QP - 2e-10 { 0 } else if rs > QP + 2e-10 { 1 } else { carry.clamp(0, 1) };
+            if carry != want { return Err(format!("step {} (add) blade {} + {} -> {} with remainder sum {:e}", i, ob, x.blade(), nb, rs)); }
+            lo += x.blade() as i128 + carry; hi = lo;
+        } else if code == 8 {
+            // subtraction rule: borrow iff the remainder difference is negative; wrap up by whole turns if negative
+            let rd = before.angle.rem() - x.rem();
+            let borrow: i128 = if rd.abs() < 1e-15 - 1e-17 { 0 } else if rd < -1.1e-15 { 1 } else if rd > 0.0 { 0 } else { -1 };
+            let base = ob - x.blade() as i128;
+            let ok = |b: i128| -> bool { let t = base - b; let w = if t < 0 { t + ((-t + 3) / 4) * 4 } else { t }; nb == w || (b == 1 && nb == w + 1 && g.angle.rem() == 0.0) };
+            let fine = if borrow >= 0 { ok(borrow) } else { ok(0) || ok(1) };
+            if !fine { return Err(format!("step {} (sub) blade {} - {} -> {} with remainder difference {:e}", i, ob, x.blade(), nb, rd)); }
+            lo = nb; hi = nb; exact = false;
+        } else {
+            // division by [1, x]: multiply by inverse = add (x + π): blade + x.blade + 2 (+carry)
+            let rs = before.angle.rem() + x.rem();
+            let carry = nb - ob - x.blade() as i128 - 2;
+            let want = if rs < QP - 2e-10 { 0 } else if rs > QP + 2e-10 { 1 } else { carry.clamp(0, 1) };
+            if carry != want { return Err(format!("step {} (div) blade {} (+{}+2) -> {} with remainder sum {:e}", i, ob, x.blade(), nb, rs)); }
+            lo += x.blade() as i128 + 2 + carry; hi = lo;
+        }
+        if g.mag.to_bits() != before.mag.to_bits() && !(code >= 9) { return Err(format!("step {} changed the magnitude", i)); }
+        if nb > (1i128 << 45) { break; }
+    }
+    let fb = g.angle.blade() as i128;
+    if fb < lo || fb > hi { return Err(format!("accumulated blade {} but the per-operation rules predict {}", fb, lo)); }
+    let _ = exact;
+    Ok(l.len() > 1)
+}
+
 pub fn clauses() -> Vec<Clause> {
     vec![
         Clause { prop: "C03", name: "sum", sig: "AA", gen: g_aa, check: c03_sum },
         Clause { prop: "C03", name: "identity", sig: "A", gen: g_a, check: c03_identity },
         Clause { prop: "C03", name: "assoc", sig: "AAA", gen: g_aaa, check: c03_assoc },
+        Clause { prop: "C04", name: "sub", sig: "AA", gen: g_aa, check: c04_sub },
+        Clause { prop: "C04", name: "roundtrip", sig: "AA", gen: g_aa, check: c04_roundtrip },
+        Clause { prop: "C04", name: "divf", sig: "AF", gen: g_divf, check: c04_divf },
+        Clause { prop: "C07", name: "steps", sig: "G", gen: g_g, check: c07_steps },
+        Clause { prop: "C07", name: "copy", sig: "GG", gen: g_gg, check: c07_copy },
+        Clause { prop: "C07", name: "opposite", sig: "AA", gen: g_opp, check: c07_opposite },
+        Clause { prop: "C07", name: "history", sig: "GL", gen: g_hist, check: c07_history },
     ]
 }
 
